@@ -8,7 +8,8 @@
 (*                   a name, or "default"                                     *)
 (*   refs[m][d]      what the declaration's type positions mention: other     *)
 (*                   declarations of m and import aliases of m                *)
-(*   alias[m][a]     <<>> (unused) or <<t, n>>: `import { n as a } from t`    *)
+(*   alias[m][a]     <<>> (unused), <<t, n>>: `import { n as a } from t`, or  *)
+(*                   <<t, "*">>: `import * as a from t` (namespace import)    *)
 (*   stars[m]        sequence of modules re-exported with `export * from`     *)
 (*   modrefs[m][d]   modules the declaration mentions as a whole:             *)
 (*                   `typeof import("./t.ts")` (requests every export of t,   *)
@@ -79,7 +80,8 @@ Analyze(m, ex) ==
   LET wanted == IF ex.k = "star" THEN OwnNoDefault(m) ELSE IF ex.k = "stard" THEN OwnNames(m) ELSE ex.n \cap OwnNames(m)
       seeds == { DeclOf(m, n) : n \in wanted }
       ds == IdClose(m, seeds)
-      viaAlias == { <<alias[m][a][1], Sub({alias[m][a][2]})>> : a \in AliasesOf(m, ds) }
+      \* a namespace import asks for every export of its target except `default` (from_file_dep_name, 154-163)
+      viaAlias == { <<alias[m][a][1], IF alias[m][a][2] = "*" THEN Star ELSE Sub({alias[m][a][2]})>> : a \in AliasesOf(m, ds) }
       viaStar == IF ex.k \in {"star", "stard"} THEN { <<stars[m][i], Star>> : i \in DOMAIN stars[m] }
                  ELSE Forward(m, 1, ex.n \ OwnNames(m))
       \* an import type without member path asks for the whole module, default included (range_finder 1115-1133)
@@ -108,12 +110,15 @@ Quiescent == DOMAIN pt = {}
 (***************************************************************************)
 (* Declarative public set: least fixpoint over wanted (module, name) pairs *)
 (***************************************************************************)
-LocalRefs(p) == { <<p[1], d>> : d \in refs[p[1]][p[2]] \cap Decls }
-AliasWants(p) == { <<alias[p[1]][a][1], alias[p[1]][a][2]>> : a \in { x \in refs[p[1]][p[2]] \cap AliasIds : alias[p[1]][x] # <<>> } }
 RECURSIVE ReachStar(_)
 ReachStar(S) == LET T == S \cup UNION { StarSet(m) : m \in S } IN IF T = S THEN S ELSE ReachStar(T)
+NoDefaultOf(t) == UNION { { <<x, n>> : n \in OwnNoDefault(x) } : x \in ReachStar({t}) }
 \* wanting a whole module = all its own names (default included) and the non-default names of what it star re-exports
 WholeModule(t) == { <<t, n>> : n \in OwnNames(t) } \cup UNION { { <<x, n>> : n \in OwnNoDefault(x) } : x \in ReachStar({t}) \ {t} }
+LocalRefs(p) == { <<p[1], d>> : d \in refs[p[1]][p[2]] \cap Decls }
+AliasWants(p) == LET as == { x \in refs[p[1]][p[2]] \cap AliasIds : alias[p[1]][x] # <<>> } IN
+                 { <<alias[p[1]][a][1], alias[p[1]][a][2]>> : a \in { x \in as : alias[p[1]][x][2] # "*" } }
+                 \cup UNION { NoDefaultOf(alias[p[1]][a][1]) : a \in { x \in as : alias[p[1]][x][2] = "*" } }
 StepD(wants, P) ==
   LET fromWants == { <<w[1], DeclOf(w[1], w[2])>> : w \in { x \in wants : x[2] \in OwnNames(x[1]) } }
       P2 == P \cup fromWants \cup UNION { LocalRefs(p) : p \in P }
@@ -129,4 +134,5 @@ PublicSet == FixD(InitialWants, {})[2]
 \* modules that get an emitted module: the entry, everything star-reachable, everything some wanted name lives in
 TracedSet == ReachStar({Entry}) \cup { w[1] : w \in FixD(InitialWants, {})[1] }
              \cup ReachStar(UNION { modrefs[p[1]][p[2]] : p \in PublicSet })
+             \cup ReachStar(UNION { { alias[p[1]][a][1] : a \in { x \in refs[p[1]][p[2]] \cap AliasIds : alias[p[1]][x] # <<>> /\ alias[p[1]][x][2] = "*" } } : p \in PublicSet })
 =============================================================================
